@@ -231,21 +231,21 @@ def check_c01(prop, tier, seed):
                                  nops=12 if thorough else 8, maxlen=10 if thorough else 6, more=0.6,
                                  epilogue=('render8',))
     if thorough:
-        cases = history.family_cases() + history.triple_cases() + history.stack_cases()
+        cases = history.family_cases() + history.triple_cases() + history.stack_cases() + history.keep_clear_cases() + history.many_end_cases()
     else:
         tri = history.triple_cases()
         rnd = __import__('random').Random(seed)
         groups = sorted(history.GROUP_CODES)
         g1 = groups[seed % len(groups)]
         g2 = groups[(seed // len(groups) + 1 + seed) % len(groups)]
-        cases = history.family_cases([g1] if g1 == g2 else sorted([g1, g2])) + rnd.sample(tri, 400) + history.stack_cases()
+        cases = history.family_cases([g1] if g1 == g2 else sorted([g1, g2])) + rnd.sample(tri, 400) + history.stack_cases() + history.keep_clear_cases() + history.many_end_cases()
     fam = campaign.run_campaign('render_family', len(cases), seed + 1, cases=cases, per_shard_max=4000)
     rt = campaign.run_repo_tests()
     merged = merge(camp, fam, rt)
     return report(prop, tier, seed, t0, merged, design,
                   extra_cov={'rule': 'every final value of random histories and every value of the enumerated family of '
                                      'adjacent style states (per group: none/x/y/clear/x+clear/clear+x/x+y on 2-3 characters; '
-                                     'pairs of groups; on/off/on-again triples over ordered pairs of groups with and without a third setting kept on) rendered under all 8 flag combinations; TLC tokenises each output and '
+                                     'pairs of groups; on/off/on-again triples over ordered pairs of groups with and without a third setting kept on; a clearing setting over an active one while 1-3 other settings stay on; 3-6 settings ending at one index while another continues) rendered under all 8 flag combinations; TLC tokenises each output and '
                                      'runs the terminal model over it',
                              'family_cases': len(cases), 'family_exhaustive_over_15_groups': thorough})
 
